@@ -138,6 +138,19 @@ int main(int argc, char** argv)
             r["col"] = {{"out", oc.ok ? "ok" : "throw"}, {"ex", oc.ex}, {"created", created},
                         {"loaded", oc.ok ? vh::name_of(loaded) : std::string()}, {"want", "2.21.2"}};
         }
+        if (legacy || db2)
+        {
+            // the same with a requested schema of the other family (the request only matters when nothing exists)
+            bool created = false;
+            es loaded = es::schema_1_6_0;
+            auto oc = vh::guarded("create_or_load_database", [&] {
+                auto db = dj::engine::create_or_load_database(dir, es::schema_1_18_0_os, created, loaded);
+                if (created)
+                    loaded = vh::schema_by_name(name_by_version_name(db.version_name()));
+            });
+            r["col1"] = {{"out", oc.ok ? "ok" : "throw"}, {"ex", oc.ex}, {"created", created},
+                         {"loaded", oc.ok ? vh::name_of(loaded) : std::string()}, {"want", "1.18.0o"}};
+        }
         vh::emit(r);
         std::error_code ec;
         fs::remove_all(dir, ec);
